@@ -10,11 +10,16 @@ namespace Flute.Recv
 open Flute
 variable {σ : Type}
 
+/-- `oti.scheme_specific` in the session model's encoding -/
+def ssRecv : Flute.Fti.SchemeSpecific → Option (Nat × Nat × Nat × Nat)
+  | .none => none
+  | .rs m g => some (0, m, g, 0)
+  | .raptorq z n al => some (1, z, n, al)
+  | .raptor z n al => some (2, z, n, al)
+
 /-- what `Receiver::push` / `FdtReceiver::push` / `ObjectReceiver::push` read of an accepted packet
-    (`d` = `pkt.data`).  Known gaps of the RECORD `Recv.Pkt` (agent wire's reading, see also
-    `Flute.Props.C04.Wire.toPkt_ofAlc_facts`): no `cenc` field (`ObjectReceiver::push` reads an in-band
-    EXT_CENC; `Full.toPkt` hands `none`), and `Recv.Oti` keeps (fec, esl, msbl) only - parity and the
-    scheme-specific part of `pkt.oti` are dropped (harmless while `Full.params` decodes No-Code only). -/
+    (`d` = `pkt.data`); field by field agent wire's `WireAbs.absRecv`, plus the in-band EXT_CENC and the
+    parity / scheme-specific part of the OTI (the object model reads them) -/
 def ofAlc (d : List Nat) (p : Alc.AlcPkt) : Pkt :=
   { toi := p.lct.toi
     closeObject := p.lct.closeObject
@@ -24,13 +29,14 @@ def ofAlc (d : List Nat) (p : Alc.AlcPkt) : Pkt :=
       | .ok (some t) => some (t : Int)
       | _ => none
     fti := match p.oti, p.transferLength with
-      | some o, some l => some ⟨⟨o.fecId, o.esl, o.maxSbl⟩, l⟩
+      | some o, some l => some ⟨⟨o.fecId, o.esl, o.maxSbl, o.parity, ssRecv o.ss⟩, l⟩
       | _, _ => none
     pid := match Alc.getFecInlinePayloadId d p with   -- `Err` for codepoint 2 (RS GF(2^m)): agent wire
       | .ok r => some (r.sbn, r.esi)
       | _ => none
     plen := d.length - p.payloadOffset
     dlen := d.length
+    cenc := p.cenc
     raw := d }
 
 /-- `parse_alc_pkt(data)` + `if alc.lct.tsi != self.tsi`; `.error` = the parser panicked -/
